@@ -1,3 +1,5 @@
+#[cfg(mos_verif_threads)]
+use mos_simrt::std_shim as std;
 use crate::codegen::symbols::SymbolIndex;
 use crate::codegen::ProgramCounter;
 use crate::parser::code_map::{CodeMap, Span};
